@@ -39,6 +39,10 @@ TRUSTED = [
     "binary64 arithmetic of the implementation is exact on the lattice / highdim_ties (small integers, <= 7 objectives) and "
     "dyadic (k/16, <= 5 objectives) streams: all intermediate values are dyadic with < 53 significant bits; 1e-9 relative "
     "tolerance on the general-float stream (all terms of the sweep are non-negative, so the rounding error is ~ n * 2^-53 relative)",
+    "big_integers: coordinates below 2^53 convert to binary64 exactly; the value is judged exactly while the exact volume is "
+    "below 2^53 (it bounds every intermediate value: all terms are non-negative) and within 1e-9 relative beyond (and the metamorphic "
+    "clauses with 2e-9 slack); near_ties kinds 0-2: one objective on a dyadic grid (2^17 + k 2^-35, 2^10 + k 2^-40, k 2^-40), all others "
+    "small integers, so every intermediate value is a multiple of the step below 2^53 steps: binary64 exact, judged exactly",
     "the aliasing clause (caller's array unchanged) is a run-time observation: bytes/shape/dtype of the array object "
     "before and after the call",
 ]
@@ -50,7 +54,9 @@ ASSUMPTIONS = [
 RULE = ("lattice: sets of <=k distinct points on {0..4}^m, ref=(4..4) (translated for 2 cases in 4): quick = every set of <=3 points for m<=3, "
         "every 1-point set and 3000 seeded 2-/3-point sets for m=4; thorough = every set of <=4 points for m<=2, <=3 points for m=3, <=2 points "
         "for m=4, seeded samples of the 4-point sets (m=3) and the 3-/4-point sets (m=4). highdim_ties: 5-7 objectives on small integer ranges "
-        "(tied coordinates, shared projections, boundary points). dyadic/floats/input_forms/recorder: generated from the seed. "
+        "(tied coordinates, shared projections, boundary points). big_integers: integer-typed arrays / lists of Python ints with extents up to 2^33 "
+        "per objective (exact volume beyond 2^63). near_ties: pairs of points differing by 1 ulp .. 1e-5 relative in the objective where one wins. "
+        "dyadic/floats/input_forms/recorder: generated from the seed. "
         "non-trivial = at least 2 points and 2 objectives")
 
 F_ND, F_SLICE, F_FAST, F_SPEC, F_CELLS, F_OKEXACT, F_OKCLOSE, F_OKLE, F_OKEQ, F_OKCASE = range(1201, 1211)
@@ -136,6 +142,12 @@ def run_impl(pts, ref, form="array"):
         Y, r = np.array(pts, dtype=np.int64), np.array(ref, dtype=np.int64)
     elif form == "int_array_float_ref":
         Y, r = np.array(pts, dtype=np.int64), np.array(ref, dtype=float)
+    elif form in ("int_list", "int_list_float_ref"):  # plain lists of Python ints (what ObjectiveRecorder sees for integer objectives)
+        Y = [[int(v) for v in p] for p in pts]
+        r = [int(v) for v in ref] if form == "int_list" else [float(v) for v in ref]
+        y0, r0 = [list(p) for p in Y], list(r)
+        h = hypervolume(Y, r)
+        return h, (Y != y0 or r != r0 or any(type(v) is not int for p in Y for v in p))
     elif form == "list":
         Y, r = [[float(v) for v in p] for p in pts], [float(v) for v in ref]
         y0, r0 = [list(p) for p in Y], list(r)
@@ -190,6 +202,10 @@ def check_set(case):
     if q is None:
         return dict(res, ok=False, clause="not_a_finite_number", detail=repr(h))
     tol = case.get("tol")
+    if tol == "auto":
+        # integer-valued case (scale 1): the float computation is exact while the volume (which bounds every intermediate
+        # value: all terms are non-negative) stays below 2^53; beyond that it is correctly rounded step by step -> tolerance
+        tol = None if (s == 1 and m.call(F_ND, [ri, Pi]) < 2 ** 53) else [1, 10 ** 9]
     if tol is None:
         good = m.call(F_OKEXACT, [s, ri, Pi, q[0], q[1]])
     else:
@@ -198,31 +214,48 @@ def check_set(case):
         mv = Fraction(m.call(F_ND, [ri, Pi]), s ** len(ri))
         return dict(res, ok=False, clause="exact" if tol is None else "close",
                     detail=dict(impl=repr(h), impl_exact=str(Fraction(*q)), model=str(mv), model_float=float(mv)))
-    # ---- metamorphic clauses on the implementation's outputs (exact streams only)
-    if tol is None:
+    # ---- metamorphic clauses on the implementation's outputs: exact comparisons (ok_le / ok_eq) on the exact streams;
+    #      where the value is only close to the model (tol), the same comparisons with 2*tol relative slack
+    mform = form if case.get("aux_same_form") else "array"
+
+    def le(a, b):
+        if b is None:
+            return False
+        if tol is None:
+            return m.call(F_OKLE, [a[0], a[1], b[0], b[1]])
+        return m.call(F_OKLE, [a[0], a[1], b[0] * tol[1] + 2 * tol[0] * abs(b[0]), b[1] * tol[1]])  # a <= b + 2 tol |b|
+
+    def eq(a, b):
+        if b is None:
+            return False
+        if tol is None:
+            return m.call(F_OKEQ, [a[0], a[1], b[0], b[1]])
+        return le(a, b) and le(b, a)
+
+    if tol is None or case.get("aux_tolerant"):
         ex = case.get("extra")
         if ex is not None:
             guard(m, ri, scale_with(s, [ex]))
-            q2 = as_ratio(run_impl(pts + [ex], ref)[0])
-            if q2 is None or not m.call(F_OKLE, [q[0], q[1], q2[0], q2[1]]):
+            q2 = as_ratio(run_impl(pts + [ex], ref, mform)[0])
+            if not le(q, q2):
                 return dict(res, ok=False, clause="monotone", detail=dict(before=str(Fraction(*q)), after=repr(q2), added=ex))
         perm = case.get("perm")
         if perm:
-            q3 = as_ratio(run_impl([pts[i] for i in perm], ref)[0])
-            if q3 is None or not m.call(F_OKEQ, [q[0], q[1], q3[0], q3[1]]):
+            q3 = as_ratio(run_impl([pts[i] for i in perm], ref, mform)[0])
+            if not eq(q, q3):
                 return dict(res, ok=False, clause="perm_dup", detail=dict(before=str(Fraction(*q)), after=repr(q3), perm=perm))
         bnd = case.get("bnd")
         if bnd:
             guard(m, ri, scale_with(s, bnd))
-            q4 = as_ratio(run_impl(pts + bnd, ref)[0])
-            q5 = as_ratio(run_impl(bnd, ref)[0])
-            if q4 is None or not m.call(F_OKEQ, [q[0], q[1], q4[0], q4[1]]) or q5 is None or not m.call(F_OKEQ, [q5[0], q5[1], 0, 1]):
+            q4 = as_ratio(run_impl(pts + bnd, ref, mform)[0])
+            q5 = as_ratio(run_impl(bnd, ref, mform)[0])
+            if not eq(q, q4) or q5 is None or not m.call(F_OKEQ, [q5[0], q5[1], 0, 1]):
                 return dict(res, ok=False, clause="boundary_zero", detail=dict(before=str(Fraction(*q)), with_boundary=repr(q4), boundary_alone=repr(q5), bnd=bnd))
     # ---- the model's evaluators agree among themselves (proved; a disagreement = broken extraction / driver)
     if case.get("internal"):
         lo = min(min(min(p) for p in Pi), min(ri))
         vals = dict(nd=m.call(F_ND, [ri, Pi]), slice=m.call(F_SLICE, [ri, Pi]), fast=m.call(F_FAST, [ri, Pi]))
-        if math.prod(r - lo for r in ri) <= 4096:
+        if math.prod(max(1, r - lo) for r in ri) <= 4096:  # the unit-grid evaluators enumerate the whole box
             vals["spec"] = m.call(F_SPEC, [lo, ri, Pi])
             vals["cells"] = m.call(F_CELLS, [lo, ri, Pi])
         if len(set(vals.values())) != 1:
@@ -267,7 +300,11 @@ def check_recorder(case):
         s, Pi, ri = scale_case(seen, ref)
         guard(m, ri, Pi)
         q = as_ratio(out)
-        if q is None or not m.call(F_OKEXACT, [s, ri, Pi, q[0], q[1]]):
+        if case.get("tol") == "auto" and not (s == 1 and m.call(F_ND, [ri, Pi]) < 2 ** 53):  # large integers: see check_set
+            good = q is not None and m.call(F_OKCLOSE, [s, ri, Pi, q[0], q[1], 1, 10 ** 9])
+        else:
+            good = q is not None and m.call(F_OKEXACT, [s, ri, Pi, q[0], q[1]])
+        if not good:
             mv = Fraction(m.call(F_ND, [ri, Pi]), s ** d)
             return dict(res, ok=False, clause="recorder_exact", detail=dict(step=step, impl=repr(out), model=str(mv)))
         kept = [list(x) for x in rec._objectives]
@@ -437,6 +474,132 @@ def gen_highdim(count):
     return gen
 
 
+BIG_FORMS = ["int_array_int_ref", "int_list", "int_array_float_ref", "int_list_float_ref", "array", "int_array_int_ref", "int_list"]
+
+
+def gen_bigint(count):
+    """Integer-valued objectives of large magnitude (bytes, nanoseconds, parameter counts): extents up to ~2^33 per
+    objective, 2-4 objectives, given as int64 arrays / lists of Python ints / float arrays, int and float reference.
+    The exact volume (Python big integers, scale 1) may exceed 2^63."""
+    def gen(rng, tier):
+        for i in range(count):
+            form = BIG_FORMS[i % len(BIG_FORMS)]
+            d = 2 + (i // len(BIG_FORMS)) % 3
+            n = rng.randint(1, 6) if tier != "search" else rng.randint(1, 3)
+            ext, off = [], []
+            for k in range(d):
+                kind = rng.random()
+                e = rng.choice([2 ** 31, 3 * 10 ** 9, 5 * 10 ** 9, 2 ** 33]) if kind < 0.7 else rng.choice([10, 1000, 2 ** 20])
+                ext.append(e)
+                off.append(rng.choice([0, 0, -e, 10 ** 12, -(10 ** 12)]))
+            if rng.random() < 0.3:  # round numbers (many ties)
+                pts = [[off[k] + rng.randint(0, 5) * (ext[k] // 5) for k in range(d)] for _ in range(n)]
+            else:
+                pts = [[off[k] + rng.randint(0, ext[k]) for k in range(d)] for _ in range(n)]
+            top = [max(p[k] for p in pts) for k in range(d)]
+            mode = rng.choice(["worst", "above", "box"])
+            ref = top if mode == "worst" else [t + rng.randint(1, max(1, e // 4)) for t, e in zip(top, ext)] if mode == "above" \
+                else [o + e for o, e in zip(off, ext)]
+            if form in ("int_array_float_ref", "int_list_float_ref") and rng.random() < 0.5:
+                ref = [r + 0.5 for r in ref]
+            lo = [min(p[k] for p in pts) for k in range(d)]
+
+            integral = all(float(r).is_integer() for r in ref)
+
+            def adm():  # integer-valued (the int forms cannot carry anything else)
+                return [int(math.floor(r)) if rng.random() < 0.15 else rng.randint(l - 3, int(math.floor(r))) for l, r in zip(lo, ref)]
+
+            perm = list(range(n)) + [rng.randrange(n) for _ in range(rng.randint(0, 2))]
+            rng.shuffle(perm)
+            b1 = adm()
+            k = rng.randrange(d)
+            b1[k] = ref[k]
+            yield dict(pts=pts, ref=ref, form=form, tol="auto", aux_same_form=True, aux_tolerant=True, extra=adm(), perm=perm, bnd=[b1] if integral else None)
+    return gen
+
+
+def gen_near_ties(count):
+    """Pairs of points that differ by a tiny RELATIVE margin in the objective(s) where one of them wins and are clearly
+    worse elsewhere (latency 100000.0 vs 99999.5).  kind 0-2: ONE fine objective on a dyadic grid (base 2^17 with steps
+    2^-35 = 1 ulp, base 2^10 with steps 2^-40, base 0 with steps 2^-40: absolute near-ties), all other objectives small
+    integers - every intermediate value of the sweep is then a multiple of the step below 2^53 steps, so binary64 is exact
+    and the case is judged EXACTLY; kind 3-4: several fine objectives / arbitrary floats, judged within 1e-9."""
+    def gen(rng, tier):
+        for i in range(count):
+            kind = i % 5
+            d = rng.randint(2, 4)
+            j = rng.randrange(d)
+            if kind <= 2:
+                base, step = [(2.0 ** 17, 2.0 ** -35), (2.0 ** 10, 2.0 ** -40), (0.0, 2.0 ** -40)][kind]
+                # margins in steps: 1 ulp ... relative 1e-12, 1e-9, 1e-6, and 'latency' margins 0.5 / 1.0 (still < 1e-5 relative)
+                if kind == 2:
+                    margins = [1, 2, 17, 256, 4000]
+                    spread = 8000
+                else:
+                    unit = int(round(1.0 / step))
+                    margins = [1, 3, 2 ** 12, 2 ** 22, 2 ** 29, unit // 8, unit // 2, unit]
+                    spread = 3 * unit
+
+                def fine(kk):
+                    return base + kk * step
+
+                pts, ks = [], []
+                for _ in range(rng.randint(1, 3)):  # near-tied pairs (or triples)
+                    u = [rng.randint(0, 4) for _ in range(d)]
+                    k0 = rng.randint(spread // 3, spread)
+                    pts.append([fine(k0) if t == j else float(u[t]) for t in range(d)])
+                    ks.append(k0)
+                    for _ in range(rng.randint(1, 2)):
+                        k0 = k0 - rng.choice(margins)
+                        if k0 < 0:
+                            break
+                        u = [u[t] + (0 if t == j else rng.randint(0, 2)) for t in range(d)]
+                        if all(u[t] == pts[-1][t] for t in range(d) if t != j):
+                            u[(j + 1) % d] += 1
+                        pts.append([fine(k0) if t == j else float(u[t]) for t in range(d)])
+                        ks.append(k0)
+                for _ in range(rng.randint(0, 3)):
+                    k0 = rng.randint(0, spread)
+                    pts.append([fine(k0) if t == j else float(rng.randint(0, 6)) for t in range(d)])
+                    ks.append(k0)
+                rng.shuffle(pts)
+                top = [max(p[t] for p in pts) for t in range(d)]
+                ref = [(fine(max(ks) + rng.choice([0, 1, margins[-1]])) if t == j else top[t] + rng.choice([0.0, 1.0, 1.0])) for t in range(d)]
+
+                def adm(boundary=False):
+                    p = [fine(rng.randint(0, max(ks))) if t == j else float(rng.randint(0, int(ref[t]))) for t in range(d)]
+                    if boundary:
+                        t = rng.randrange(d)
+                        p[t] = ref[t]
+                    return p
+
+                n = len(pts)
+                perm = list(range(n)) + [rng.randrange(n)]
+                rng.shuffle(perm)
+                yield dict(pts=pts, ref=ref, extra=adm(), perm=perm, bnd=[adm(True)], internal=(i % 10 == 0))
+            else:
+                # staircase + near copies of its points, on objectives of very different magnitude
+                m0 = rng.randint(2, 5)
+                stair = [[float(t), float(m0 - 1 - t)] + [float(rng.randint(0, 3)) for _ in range(d - 2)] for t in range(m0)]
+                eps = rng.choice([4e-6, 1e-7, 1e-9, 1e-11])
+                near = [[v + rng.choice([-1.0, 1.0]) * eps * rng.random() for v in p] for p in stair]
+                scale = [rng.choice([1.0, 1000.0, 1e-3]) for _ in range(d)]
+                offs = [rng.choice([0.0, 250000.0, 0.1, 1e6]) * sc for sc in scale]
+                pts = [[v * sc + o for v, sc, o in zip(p, scale, offs)] for p in stair + near]
+                if kind == 4:
+                    pts += [[rng.uniform(0, m0) * sc + o for sc, o in zip(scale, offs)] for _ in range(rng.randint(0, 4))]
+                rng.shuffle(pts)
+                top = [max(p[t] for p in pts) for t in range(d)]
+                ref = [t_ + rng.choice([0.0, 1.0]) * sc for t_, sc in zip(top, scale)]
+                n = len(pts)
+                perm = list(range(n))
+                rng.shuffle(perm)
+                lo = [min(p[t] for p in pts) for t in range(d)]
+                extra = [rng.uniform(l, r) for l, r in zip(lo, ref)]
+                yield dict(pts=pts, ref=ref, tol=[1, 10 ** 9], aux_tolerant=True, extra=extra, perm=perm)
+    return gen
+
+
 FORMS = ["ref_list", "ref_tuple", "fortran", "readonly", "view", "int_array_int_ref", "int_array_float_ref", "list"]
 
 
@@ -460,6 +623,20 @@ def gen_recorder(count):
         for i in range(count):
             m = rng.randint(2, 4) if i % 4 else rng.randint(5, 6)
             L = rng.randint(1, 8)
+            if i % 7 == 5:  # integer objectives of large magnitude (-bytes, -nanoseconds): the recorder hands int64 arrays over
+                m = rng.randint(2, 3)
+                G = rng.choice([10 ** 9, 2 ** 31, 2 ** 30])
+                yield dict(objs=[[-rng.randint(0, 5) * G - rng.choice([0, 0, rng.randint(0, G)]) for _ in range(m)] for _ in range(L)], tol="auto")
+                continue
+            if i % 7 == 6:  # near-tied objectives: one objective around -2^17 with steps of 1 ulp .. 1, the others small integers
+                m = rng.randint(2, 3)
+                j, k0, objs = rng.randrange(m), 2 ** 36, []
+                for _ in range(L):
+                    k0 -= rng.choice([1, 2 ** 12, 2 ** 22, 2 ** 29, 2 ** 34, 2 ** 35])
+                    objs.append([-(2.0 ** 17 + k0 * 2.0 ** -35) if t == j else float(rng.randint(-4, 0)) - len(objs) // 2 for t in range(m)])
+                rng.shuffle(objs)
+                yield dict(objs=objs)
+                continue
             objs = []
             for _ in range(L):
                 if rng.random() < 0.15:
@@ -524,6 +701,8 @@ def streams(tier):
         Stream("highdim_ties", gen_highdim(120000 if th else 15000), check_set, shrink_set, timeout=60),
         Stream("dyadic", gen_dyadic(3000 if th else 480, 30, 5), check_set, shrink_set, timeout=120),
         Stream("floats", gen_floats(700 if th else 140, 60 if th else 30, 7), check_set, shrink_set, timeout=300),
+        Stream("big_integers", gen_bigint(7000 if th else 1400), check_set, shrink_set, timeout=60),
+        Stream("near_ties", gen_near_ties(20000 if th else 3000), check_set, shrink_set, timeout=60),
         Stream("input_forms", gen_forms(800 if th else 160), check_set, shrink_set, timeout=30),
         Stream("recorder", gen_recorder(1500 if th else 200), check_recorder, shrink_rec, timeout=60),
     ]
